@@ -29,6 +29,7 @@ from ..core import BUILD, REPO, scratch
 CFGS = ("cannon", "boots")
 OUT_CAP = 16 << 20          # bytes of stdout+stderr a run may write before it is stopped (SIGXFSZ): flood guard for mutants
 RESOURCE_TRAPS = ("trap(STACK_OVERFLOW)", "trap(OOM)")
+PRLIMIT = shutil.which("prlimit")
 
 
 # ---------------------------------------------------------------------------------------------------------------
@@ -56,9 +57,14 @@ def run_capped(cmd, timeout, env=None, cwd=None, outdir=None, tag="r"):
         e.update(env)
     po, pe = os.path.join(outdir, tag + ".out"), os.path.join(outdir, tag + ".err")
 
-    def pre():
-        resource.setrlimit(resource.RLIMIT_FSIZE, (OUT_CAP, OUT_CAP))
-        resource.setrlimit(resource.RLIMIT_CORE, (0, 0))
+    pre = None
+    if PRLIMIT:
+        # no preexec_fn: lets subprocess use vfork (a fork of this multi-threaded process per run costs seconds under load)
+        cmd = [PRLIMIT, "--fsize=%d" % OUT_CAP, "--core=0"] + list(cmd)
+    else:
+        def pre():
+            resource.setrlimit(resource.RLIMIT_FSIZE, (OUT_CAP, OUT_CAP))
+            resource.setrlimit(resource.RLIMIT_CORE, (0, 0))
     t0 = time.time()
     timed_out = False
     with open(po, "wb") as fo, open(pe, "wb") as fe:
